@@ -101,12 +101,12 @@ def hd_attr(t: int, tail: bytes, kb: bytes) -> bool:
 
 
 @ob('O2.1-key', 'signatures over keys: direct-key and key revocation hash the key; subkey binding, primary-key binding and subkey '
-               'revocation hash the primary key and then the subkey', 'type in {0x1F, 0x20, 0x18, 0x19, 0x28}; primary and subkey bodies of 0..3 symbolic octets each',
+               'revocation hash the primary key and then the subkey', 'type in {0x1F, 0x20, 0x18, 0x19, 0x28}; primary and subkey bodies of 1..3 symbolic octets each',
     cond_timeout={'q': 280, 't': 900}, partitions=[['t == %d' % t] for t in (0x1F, 0x20, 0x18, 0x19, 0x28)])
 def hd_key(t: int, pb: bytes, sb: bytes) -> bool:
     """
     pre: t in (0x1F, 0x20, 0x18, 0x19, 0x28)
-    pre: len(pb) <= 3 and len(sb) <= 3
+    pre: 1 <= len(pb) <= 3 and 1 <= len(sb) <= 3
     post: _
     """
     p = FakePrimary(pb)
@@ -483,7 +483,7 @@ def sig_integers(alg: int, a0: int, a1: int, a2: int, b0: int, b1: int, b2: int,
 SANITY = ['hd_doc(0, b"ab\\n")', 'hd_doc(1, b"a\\nb\\r\\n")', 'hd_doc(1, b"\\n\\n")', 'hd_nosubj(2, 8)', 'hd_nosubj(0x40, 2)',
           'hd_uid(0x13, "h\\u00e9", b"\\x04\\x01")', 'hd_uid(0x30, "", b"k")', 'hd_uid(0x10, "a b", b"\\xff")',
           'hd_attr(0x13, b"\\x01\\x02", b"\\x04")', 'hd_attr(0x30, b"", b"k")',
-          'hd_key(0x1F, b"ab", b"cd")', 'hd_key(0x20, b"", b"x")', 'hd_key(0x18, b"ab", b"cde")', 'hd_key(0x19, b"ab", b"c")', 'hd_key(0x28, b"a", b"")',
+          'hd_key(0x1F, b"ab", b"cd")', 'hd_key(0x20, b"y", b"x")', 'hd_key(0x18, b"ab", b"cde")', 'hd_key(0x19, b"ab", b"c")', 'hd_key(0x28, b"a", b"b")',
           'hd_alg(1, 2, b"x")', 'hd_alg(19, 11, b"")',
           'opt_sign(b"d", "u", True, True, 0, True)', 'opt_sign(b"", "", False, False, 4, False)', 'opt_sign(b"d", "h\\u00e9", False, True, 2, True)',
           'opt_notation(1, "v")', 'opt_notation(3, "\\U0001F600")', 'opt_notation(0, "")', 'opt_notation(6, "\\u00e9x")',
